@@ -1,4 +1,88 @@
-import LZ4V.Spec.Frame
-/-! # C03 — property theorems (in progress) -/
+import LZ4V.Proofs.FrameCProof
+import LZ4V.Proofs.BlockHub
+/-!
+# C03 — frame compression is lossless under any call pattern (buffering state machine + specification)
+
+`Model.FrameC` mirrors which input bytes `LZ4F_compressUpdate / LZ4F_uncompressedUpdate / LZ4F_flush / LZ4F_compressEnd`
+put into which block (tie: the real frame's block structure is compared with the model's on every recorded call history).
+-/
 namespace LZ4V.C03
+open LZ4V.Model.FrameC
+
+/-- the context right after `LZ4F_compressBegin` -/
+def afterBegin (bs : Nat) (af : Bool) : Ctx := { stage := 1, blockSize := bs, autoFlush := af }
+
+theorem afterBegin_wf (bs : Nat) (af : Bool) (h : 0 < bs) : WF (afterBegin bs af) := ⟨h, h⟩
+
+/-- **blocks cover the input**: for EVERY call history after `begin` (any split of the input over updates of either kind,
+    flushes anywhere, chunk sizes 0 .. several blocks), the raw contents of the emitted blocks, in order, followed by what is
+    still buffered are exactly the bytes fed so far; every block is non-empty and at most `blockSize` long -/
+theorem blocks_cover_input (bs : Nat) (af : Bool) (hbs : 0 < bs) (ops : List Op) (c' : Ctx) (blocks : List (List UInt8))
+    (hops : ∀ op ∈ ops, ∀ b a, op ≠ .begin b a) (hr : run (afterBegin bs af) ops = .ok (c', blocks)) :
+    blocks.flatten ++ c'.buffered = fed ops ∧ (∀ b ∈ blocks, 0 < b.length ∧ b.length ≤ bs) := by
+  obtain ⟨h1, h2, _⟩ := run_cover ops (afterBegin bs af) c' blocks (afterBegin_wf bs af hbs) hops hr
+  exact ⟨by simpa [afterBegin] using h1, h2⟩
+
+/-- a history that ends with `LZ4F_compressEnd`, from any well-formed context -/
+theorem finish_cover : ∀ (ops : List Op) (c c' : Ctx) (blocks : List (List UInt8)), WF c →
+    (∀ op ∈ ops, ∀ b a, op ≠ .begin b a) → run c (ops ++ [.finish]) = .ok (c', blocks) →
+    blocks.flatten = c.buffered ++ fed ops ∧ c'.buffered = [] ∧ c'.stage = 0 := by
+  intro ops
+  induction ops with
+  | nil =>
+    intro c c' blocks hwf _ hr
+    simp only [List.nil_append, run] at hr
+    cases hs : step c .finish with
+    | error e => rw [hs] at hr; cases hr
+    | ok rf =>
+      obtain ⟨cf, ef⟩ := rf
+      rw [hs] at hr
+      dsimp only at hr
+      injection hr with hr; injection hr with e1 e2; subst e1; subst e2
+      obtain ⟨s1, _, _, _, s5⟩ := step_spec c cf .finish ef hwf (by intro b a h; cases h) hs
+      have hclosed : ef.closed = true ∧ cf.stage = 0 := by
+        simp only [step] at hs
+        split at hs
+        · split at hs
+          · injection hs with hs; injection hs with a1 a2; subst a1; subst a2; exact ⟨rfl, rfl⟩
+          · cases hs
+        · injection hs with hs; injection hs with a1 a2; subst a1; subst a2; exact ⟨rfl, rfl⟩
+      have hb := s5 hclosed.1
+      rw [hb] at s1
+      simp only [List.append_nil, fed] at s1 ⊢
+      exact ⟨s1, hb, hclosed.2⟩
+  | cons op rest ih =>
+    intro c c' blocks hwf hops hr
+    simp only [List.cons_append, run] at hr
+    cases hs : step c op with
+    | error e => rw [hs] at hr; cases hr
+    | ok r =>
+      obtain ⟨c1, e⟩ := r
+      rw [hs] at hr
+      dsimp only at hr
+      cases hr2 : run c1 (rest ++ [.finish]) with
+      | error e2 => rw [hr2] at hr; cases hr
+      | ok r2 =>
+        obtain ⟨c2, bs2⟩ := r2
+        rw [hr2] at hr
+        dsimp only at hr
+        injection hr with hr; injection hr with e1 e2; subst e1; subst e2
+        obtain ⟨s1, _, s3, _, _⟩ := step_spec c c1 op e hwf (hops op List.mem_cons_self) hs
+        obtain ⟨i1, i2, i3⟩ := ih c1 c2 bs2 s3 (fun o ho => hops o (List.mem_cons_of_mem _ ho)) hr2
+        refine ⟨?_, i2, i3⟩
+        have hf : fed (op :: rest) = fed [op] ++ fed rest := by cases op <;> simp [fed]
+        rw [List.flatten_append, i1, ← List.append_assoc, s1, hf, List.append_assoc]
+
+/-- **a finished frame holds exactly the input**: any history `begin; ...; LZ4F_compressEnd` emits blocks whose contents
+    concatenate to everything that was fed; nothing stays buffered and the frame is closed -/
+theorem finished_frame_holds_input (bs : Nat) (af : Bool) (hbs : 0 < bs) (ops : List Op) (c' : Ctx) (blocks : List (List UInt8))
+    (hops : ∀ op ∈ ops, ∀ b a, op ≠ .begin b a) (hr : run (afterBegin bs af) (ops ++ [.finish]) = .ok (c', blocks)) :
+    blocks.flatten = fed ops ∧ c'.buffered = [] ∧ c'.stage = 0 := by
+  obtain ⟨h1, h2, h3⟩ := finish_cover ops (afterBegin bs af) c' blocks (afterBegin_wf bs af hbs) hops hr
+  exact ⟨by simpa [afterBegin] using h1, h2, h3⟩
+
+/-- non-vacuity: 5 bytes, block size 2, update 3 bytes, flush, uncompressed-update 2 bytes, end -/
+example : (run (afterBegin 2 false) [.update [1, 2, 3] false, .flush, .update [4, 5] true, .finish]).toOption.map (·.2) =
+    some [[1, 2], [3], [4, 5]] := by decide
+
 end LZ4V.C03
